@@ -222,6 +222,16 @@ pub fn run(tier: &str) -> i32 {
     let mut progs = struct_space(true, thorough, false, false);
     progs.extend(extra_space());
     progs.extend(crate::c05::io_host_space());
+    // member / element types written through `alias` declarations (every 3rd program in quick)
+    {
+        let n0 = progs.len();
+        for i in 0..n0 {
+            if thorough || i % 3 == 0 || progs[i].key.starts_with("rt") {
+                let v = alias_variants(&progs[i]);
+                progs.extend(v);
+            }
+        }
+    }
     let reprs = [Repr::Rust, Repr::Glam, Repr::Nalgebra];
     let items: Vec<(usize, Repr)> = (0..progs.len()).flat_map(|i| reprs.iter().map(move |r| (i, *r))).collect();
     let res = par_map(&items, |(i, r)| {
